@@ -10,21 +10,6 @@ Open Scope string_scope.
 Open Scope nat_scope.
 Open Scope list_scope.
 
-(* engine names select a built-in behaviour: they do not end the descent *)
-Definition eff_resolve (P: prims) (d: dir) (c: pctx) : option (slot * winner) :=
-  match resolve_ctx P d c with
-  | Some (_, WEngine _) => None
-  | r => r
-  end.
-
-Fixpoint ref_compile (P: prims) (d: dir) (cs: list pctx) (depth: nat) : option (nat * (slot * winner)) :=
-  match cs with
-  | [] => None
-  | c :: r => match eff_resolve P d c with Some sw => Some (depth, sw) | None => ref_compile P d r (S depth) end
-  end.
-
-Definition spec_of (P: prims) (c: pctx) : kv :=
-  mk_spec4 (x_decl c) (p_org P (x_decl c)) (x_ann c) (enc_meta (x_S c)).
 
 (* ---- Registry.get on the four-attribute spec ---- *)
 Lemma registry_prepare_spec4 rt org isann t o a md :
